@@ -138,8 +138,7 @@ func textEntries() {
 		}})
 	pad := func(name string, left bool) {
 		add(&entry{mod: "text", name: name, params: "SI|S",
-			fixed:     []T{{"ab", int64(5), "x"}, {"ab", int64(5)}, {"abcdef", int64(3), "x"}, {"ab", int64(6), "xy"}, {"", int64(2), "é"}, {"ab", int64(-1), "x"}},
-			wrongBase: T{"ab", int64(5), "x"},
+			fixed: []T{{"ab", int64(5), "x"}, {"ab", int64(5)}, {"abcdef", int64(3), "x"}, {"ab", int64(6), "xy"}, {"", int64(2), "é"}, {"ab", int64(-1), "x"}},
 			dom: func(a T) bool {
 				n, s := num(a, 1), str(a, 0)
 				p := " "
@@ -191,17 +190,17 @@ func textEntries() {
 		dom: func(a T) bool { return num(a, 1) >= 2 && num(a, 1) <= 36 },
 		gen: func(r *lib.RNG) T { return T{randInt(r), int64(2 + r.Intn(35))} },
 		ref: func(a T) interface{} { return strconv.FormatInt(a[0].(int64), num(a, 1)) }})
-	add(&entry{mod: "text", name: "parse_bool", params: "s", knownErr: "S1", fixed: []T{{"true"}, {"0"}, {"T"}, {"False"}},
+	add(&entry{mod: "text", name: "parse_bool", params: "s", fixed: []T{{"true"}, {"0"}, {"T"}, {"False"}},
 		gen: func(r *lib.RNG) T {
 			return T{lib.Pick(r, []string{"1", "t", "T", "TRUE", "true", "True", "0", "f", "F", "FALSE", "false", "False", "yes", "", "tRUE"})}
 		},
 		ref: func(a T) interface{} { return orErr(strconv.ParseBool(str(a, 0))) }})
 	numTexts := []string{"1.5", "-2", "1e3", "0x10", "abc", "", "1e400", "  1", "3.4028236e38", "0b11", "0o17", "1_000", "9223372036854775808", "-9223372036854775808", "zz", "7f", "+12", "NaN", "inf"}
-	add(&entry{mod: "text", name: "parse_float", params: "sI", knownErr: "S1", fixed: []T{{"1.5", int64(64)}, {"16777217", int64(32)}},
+	add(&entry{mod: "text", name: "parse_float", params: "sI", fixed: []T{{"1.5", int64(64)}, {"16777217", int64(32)}},
 		dom: func(a T) bool { return num(a, 1) == 32 || num(a, 1) == 64 },
 		gen: func(r *lib.RNG) T { return T{lib.Pick(r, numTexts), lib.Pick(r, []int64{32, 64})} },
 		ref: func(a T) interface{} { return orErr(strconv.ParseFloat(str(a, 0), num(a, 1))) }})
-	add(&entry{mod: "text", name: "parse_int", params: "sII", knownErr: "S1", fixed: []T{{"ff", int64(16), int64(64)}, {"-12", int64(10), int64(8)}, {"0x1f", int64(0), int64(64)}},
+	add(&entry{mod: "text", name: "parse_int", params: "sII", fixed: []T{{"ff", int64(16), int64(64)}, {"-12", int64(10), int64(8)}, {"0x1f", int64(0), int64(64)}},
 		dom: func(a T) bool {
 			b := num(a, 1)
 			return (b == 0 || (b >= 2 && b <= 36)) && num(a, 2) >= 0 && num(a, 2) <= 64
@@ -253,22 +252,6 @@ func refFind(re *regexp.Regexp, a T, off int) interface{} {
 	return raw(sb.String() + ")")
 }
 
-func allGroupsMatched(re *regexp.Regexp, a T, off int) bool {
-	s := str(a, off)
-	n := 1
-	if len(a) > off+1 {
-		n = num(a, off+1)
-	}
-	for _, m := range re.FindAllStringSubmatchIndex(s, n) {
-		for _, x := range m {
-			if x < 0 {
-				return false
-			}
-		}
-	}
-	return true
-}
-
 func withRe(a T, f func(re *regexp.Regexp) interface{}) interface{} {
 	re, err := regexp.Compile(str(a, 0))
 	if err != nil {
@@ -288,17 +271,17 @@ func regexpEntries() {
 		return def
 	}
 	smallN := func(a T, i int) bool { return len(a) <= i || (num(a, i) > -1<<20 && num(a, i) < 1<<20) }
-	add(&entry{mod: "text", name: "re_match", params: "PS", knownErr: "S1", fixed: pm, ref: func(a T) interface{} {
+	add(&entry{mod: "text", name: "re_match", params: "PS", fixed: pm, ref: func(a T) interface{} {
 		return orErr(regexp.MatchString(str(a, 0), str(a, 1)))
 	}})
-	add(&entry{mod: "text", name: "re_find", params: "PS|I", knownErr: "S1", fixed: pf, dom: func(a T) bool { return smallN(a, 2) },
+	add(&entry{mod: "text", name: "re_find", params: "PS|I", errBeforeTypes: true, fixed: append(append([]T{}, pf...), T{"(", "x", int64(1)}), dom: func(a T) bool { return smallN(a, 2) },
 		ref: func(a T) interface{} {
 			return withRe(a, func(re *regexp.Regexp) interface{} { return refFind(re, a, 1) })
 		}})
-	add(&entry{mod: "text", name: "re_replace", params: "PSR", knownErr: "S1", fixed: pr, limit: byResult, ref: func(a T) interface{} {
+	add(&entry{mod: "text", name: "re_replace", params: "PSR", fixed: pr, limit: byResult, ref: func(a T) interface{} {
 		return withRe(a, func(re *regexp.Regexp) interface{} { return re.ReplaceAllString(str(a, 1), str(a, 2)) })
 	}})
-	add(&entry{mod: "text", name: "re_split", params: "PS|I", knownErr: "S1", fixed: pf, dom: func(a T) bool { return smallN(a, 2) }, ref: func(a T) interface{} {
+	add(&entry{mod: "text", name: "re_split", params: "PS|I", fixed: pf, dom: func(a T) bool { return smallN(a, 2) }, ref: func(a T) interface{} {
 		return withRe(a, func(re *regexp.Regexp) interface{} { return re.Split(str(a, 1), nArg(a, 2, -1)) })
 	}})
 	// the object re_compile returns: methods called on it (pattern = first script argument)
@@ -311,12 +294,8 @@ func regexpEntries() {
 	add(&entry{mod: "text", name: "regexp.match", params: "QS", tmpl: method("match"), fixed: pm[:2], dom: validRe, ref: func(a T) interface{} {
 		return withRe(a, func(re *regexp.Regexp) interface{} { return re.MatchString(str(a, 1)) })
 	}})
-	add(&entry{mod: "text", name: "regexp.find", params: "QS|I", tmpl: method("find"), fixed: []T{pf[0], pf[1], pf[2], pf[3], pf[5], pf[6]},
-		// unmatched groups are the region of known finding S2 (Go panic): probed separately
-		dom: func(a T) bool {
-			re, err := regexp.Compile(str(a, 0))
-			return err == nil && smallN(a, 2) && allGroupsMatched(re, a, 1)
-		},
+	add(&entry{mod: "text", name: "regexp.find", params: "QS|I", tmpl: method("find"), fixed: []T{pf[0], pf[1], pf[2], pf[3], pf[4], pf[5], pf[6], {"(a)|b", "b", int64(2)}},
+		dom: func(a T) bool { return validRe(a) && smallN(a, 2) },
 		ref: func(a T) interface{} {
 			return withRe(a, func(re *regexp.Regexp) interface{} { return refFind(re, a, 1) })
 		}})
@@ -327,7 +306,7 @@ func regexpEntries() {
 		dom: func(a T) bool { return validRe(a) && smallN(a, 2) }, ref: func(a T) interface{} {
 			return withRe(a, func(re *regexp.Regexp) interface{} { return re.Split(str(a, 1), nArg(a, 2, -1)) })
 		}})
-	add(&entry{mod: "text", name: "re_compile", params: "P", knownErr: "S1", tmpl: func(n int) string {
+	add(&entry{mod: "text", name: "re_compile", params: "P", tmpl: func(n int) string {
 		return "re := m.re_compile(" + argList(0, n) + ")\nout = is_error(re) ? re : (is_immutable_map(re) && is_callable(re.match) && is_callable(re.find) && is_callable(re.replace) && is_callable(re.split))"
 	}, fixed: []T{{"a+"}, {"("}}, ref: func(a T) interface{} { return withRe(a, func(*regexp.Regexp) interface{} { return true }) }})
 }
@@ -445,7 +424,7 @@ func timesEntries() {
 	dur("duration_seconds", func(d time.Duration) interface{} { return d.Seconds() })
 	dur("duration_string", func(d time.Duration) interface{} { return d.String() })
 	add(&entry{mod: "times", name: "month_string", params: "I", fixed: iC, ref: func(a T) interface{} { return time.Month(a[0].(int64)).String() }})
-	add(&entry{mod: "times", name: "parse_duration", params: "S", knownErr: "S1", fixed: []T{{"1h30m"}, {"-1.5h"}, {"300ms"}, {"zz"}},
+	add(&entry{mod: "times", name: "parse_duration", params: "S", fixed: []T{{"1h30m"}, {"-1.5h"}, {"300ms"}, {"zz"}},
 		gen: func(r *lib.RNG) T {
 			return T{lib.Pick(r, []string{"1ns", "2us", "3µs", "4ms", "5s", "6m", "7h", "1h2m3s", "-1.5h", "+2s", "1.5", "", "zz", "1d", "0", ".5s", "9999999h"})}
 		},
@@ -454,7 +433,7 @@ func timesEntries() {
 			return orErr(int64(d), err)
 		}})
 	zones := []string{"UTC", "Europe/Paris", "America/New_York", "Asia/Tokyo"}
-	add(&entry{mod: "times", name: "date", params: "IIIIIII|S", knownErr: "S1",
+	add(&entry{mod: "times", name: "date", params: "IIIIIII|S",
 		dom:   func(a T) bool { return len(a) == 8 }, // without a location the Local zone is used (excluded: OS state)
 		fixed: []T{{int64(2021), int64(3), int64(9), int64(4), int64(5), int64(6), int64(7), "UTC"}, {int64(2020), int64(14), int64(35), int64(25), int64(61), int64(61), int64(-1), "Asia/Tokyo"}},
 		gen: func(r *lib.RNG) T {
@@ -472,7 +451,7 @@ func timesEntries() {
 			return time.Date(num(a, 0), time.Month(num(a, 1)), num(a, 2), num(a, 3), num(a, 4), num(a, 5), num(a, 6), loc)
 		}})
 	layouts := []string{"2006-01-02 15:04:05", time.RFC3339, time.RFC3339Nano, time.RFC1123Z, time.Kitchen, "2006", "Jan _2 15:04:05.000", time.RFC822Z}
-	add(&entry{mod: "times", name: "parse", params: "SS", knownErr: "S1", fixed: []T{{"2006-01-02 15:04:05", "2021-03-09 04:05:06"}, {"2006", "zz"}, {time.RFC3339, "2021-03-09T04:05:06+09:00"}},
+	add(&entry{mod: "times", name: "parse", params: "SS", fixed: []T{{"2006-01-02 15:04:05", "2021-03-09 04:05:06"}, {"2006", "zz"}, {time.RFC3339, "2021-03-09T04:05:06+09:00"}},
 		gen: func(r *lib.RNG) T {
 			l := lib.Pick(r, layouts)
 			t := randTime(r).UTC()
@@ -538,7 +517,7 @@ func timesEntries() {
 			return T{randTime(r), l}
 		},
 		ref: func(a T) interface{} { return tim(a, 0).Format(str(a, 1)) }})
-	add(&entry{mod: "times", name: "in_location", params: "TS", knownErr: "S1", fixed: []T{{t0, "UTC"}, {t0, "Asia/Tokyo"}, {t0, "No/Where"}},
+	add(&entry{mod: "times", name: "in_location", params: "TS", fixed: []T{{t0, "UTC"}, {t0, "Asia/Tokyo"}, {t0, "No/Where"}},
 		gen: func(r *lib.RNG) T {
 			z := lib.Pick(r, zones)
 			if r.Chance(1, 10) {
@@ -801,6 +780,15 @@ func runFindingProbes() {
 		} else if got.err != nil || canonObj(got.obj) != want {
 			res.Violate(lib.Violation{Signature: "text.regexp.find-value-differs", Stream: "finding-probe", Input: map[string]interface{}{"script": call},
 				Observed: got.String(), Expected: want, Oracle: "regexp.FindStringSubmatchIndex, unmatched groups left out as re_find does"})
+		}
+	}
+	// S4: re_find compiles the pattern (and returns its error) before it looks at the type of the text argument
+	for _, call := range []string{`m.re_find("(", undefined)`, `m.re_find("(", undefined, 1)`} {
+		got := runScriptOnce("text", "out = "+call)
+		res.Count("finding-probe", "S4:"+call, true)
+		if got.err == nil && got.panicked == "" {
+			finding("S4", "text.re_find-wrong-typed-text-accepted-when-pattern-invalid", "finding-probe", map[string]interface{}{"entry": "probe-S4", "script": call},
+				got.String(), "run-time error (undefined has no string conversion)", "wrong argument types are rejected as run-time errors")
 		}
 	}
 	// S3: pad_left / pad_right look at pad_with only when padding is needed
